@@ -28,6 +28,8 @@ inductive ErrVal
   | deadline       -- os.ErrDeadlineExceeded
   | ctxDeadline    -- context.DeadlineExceeded
   | dnsTimeout     -- *net.DNSError{IsTimeout: true}
+  | controlText    -- an ordinary error whose TEXT has CR LF, NUL, ESC, quotes and a backslash in it
+  | nonAsciiText   -- … or bytes outside ASCII
   deriving Repr, DecidableEq
 
 /-- `isCloseable` of proxy.go on these values: `err.(net.Error)` with `Timeout()`, or identical to
